@@ -439,8 +439,21 @@ def value_conforms(v, t, schema, M, db):
         # unnamed tuple type was inferred and vice versa (both implicit casts exist, positionally);
         # a named value in a named type must carry the same names
         if isinstance(v, dict):
-            if t.is_named(schema) and list(v.keys()) != [n for n, _ in sts]:
-                return False
+            if t.is_named(schema):
+                # a named-tuple value in a named-tuple type: the SAME field names in the SAME order, and
+                # every field typed BY NAME
+                names = [n for n, _ in sts]
+                if list(v.keys()) != names:
+                    return False
+                by_name = dict(sts)
+                res = True
+                for k, x in v.items():
+                    r = value_conforms(x, by_name[k], schema, M, db)
+                    if r is False:
+                        return False
+                    if r is None:
+                        res = None
+                return res
             vals = list(v.values())
         elif isinstance(v, tuple):
             vals = list(v)
